@@ -58,6 +58,73 @@ func validResponses(enc string) map[string][]byte {
 var kindsOrder = []string{"call", "callret", "unknown", "ping", "sopen", "sdata", "sclose", "big"}
 var respOrder = []string{"ok", "ok1", "err", "empty"}
 
+var hostileLengths = []uint64{
+	^uint64(0), ^uint64(0) - 1, ^uint64(0) - 8, ^uint64(0) - 9, ^uint64(0) - 10, ^uint64(0) - 11, ^uint64(0) - 20,
+	1 << 63, 1<<63 - 1, 1<<63 + 1, 1 << 62, 1 << 32, 1<<32 - 1, 1 << 31, 1<<31 - 1, 1 << 16, 65535, 256, 255, 128, 127, 21, 20, 11, 10, 9, 1, 0,
+}
+
+func uvarint(v uint64) []byte {
+	var b []byte
+	for v >= 0x80 {
+		b = append(b, byte(v)|0x80)
+		v >>= 7
+	}
+	return append(b, byte(v))
+}
+
+// lengthAttacks builds frames whose length-delimited fields carry hostile length prefixes.
+func lengthAttacks(enc string, response bool) [][]byte {
+	var out [][]byte
+	tails := []int{0, 1, 9, 10, 11, 20, 40}
+	switch enc {
+	case "default", "pb":
+		tags := []byte{0x12, 0x1a, 0x22}
+		if response {
+			tags = []byte{0x12, 0x1a}
+		}
+		for _, tag := range tags {
+			for _, l := range hostileLengths {
+				for _, tl := range tails {
+					for _, withSeq := range []bool{false, true} {
+						var f []byte
+						if withSeq {
+							f = append(f, 0x08, 0x05)
+						}
+						f = append(f, tag)
+						f = append(f, uvarint(l)...)
+						f = append(f, bytes.Repeat([]byte{'a'}, tl)...)
+						out = append(out, f)
+					}
+				}
+			}
+		}
+	case "code":
+		nfields := 3
+		if response {
+			nfields = 2
+		}
+		for field := 0; field < nfields; field++ {
+			for _, l := range hostileLengths {
+				for _, tl := range tails {
+					f := []byte{0x05}
+					for k := 0; k < field; k++ {
+						f = append(f, 0x01, 'x')
+					}
+					f = append(f, uvarint(l)...)
+					f = append(f, bytes.Repeat([]byte{'a'}, tl)...)
+					out = append(out, f)
+				}
+			}
+		}
+		// hostile sequence-number varints
+		for _, raw := range []string{"ffffffffffffffffff01", "ffffffffffffffffff7f", "ffffffffffffffffffff01", "80808080808080808080", "ff"} {
+			b, _ := hex.DecodeString(raw)
+			out = append(out, append(b, 0, 0, 0))
+		}
+	}
+	return out
+}
+
 func corruptValues(b byte, thorough bool) []byte {
 	if thorough {
 		out := make([]byte, 0, 255)
@@ -113,6 +180,16 @@ func enum(tier string, yield func(Case)) {
 					yield(c)
 				}
 			}
+		}
+		// hostile length prefixes: every length-delimited field position, with lengths at the
+		// integer boundaries (incl. values whose sum with the offset wraps around 2^64)
+		for _, fr := range lengthAttacks(enc, false) {
+			p, d := next()
+			yield(Case{Mode: "frames", Enc: enc, Pipelining: p, DirectIO: d, Frames: []string{hex.EncodeToString(fr)}, Origin: "length-attack"})
+		}
+		for _, fr := range lengthAttacks(enc, true) {
+			_, d := next()
+			yield(Case{Mode: "client", Enc: enc, DirectIO: d, Frames: []string{hex.EncodeToString(fr)}, Pending: 2, Stream: true, Origin: "length-attack"})
 		}
 		// every upgrade byte x {known, unknown, stream method} x {no stream, open stream id, other id}
 		args := kit.MakePayload(9, kit.DirEcho, 1, 24)
@@ -582,7 +659,7 @@ var prop = kit.Property[Case]{
 	},
 	Gen:            gen,
 	Enum:           enum,
-	EnumExhaustive: []string{"every truncation of every corpus frame, per encoder", "all 256 upgrade bytes x method kinds x stream states, per encoder", "disconnect after every prefix of the fixed burst, per non-poll server mode and encoder", "thorough: all 255 single-byte corruptions per position of every corpus frame"},
+	EnumExhaustive: []string{"every truncation of every corpus frame, per encoder", "hostile length prefixes (integer boundaries incl. 2^64-1..2^64-21) at every length-delimited field position x 7 tail lengths, per encoder and side", "all 256 upgrade bytes x method kinds x stream states, per encoder", "disconnect after every prefix of the fixed burst, per non-poll server mode and encoder", "thorough: all 255 single-byte corruptions per position of every corpus frame"},
 	Run:            run,
 }
 
